@@ -4,6 +4,7 @@ import (
 	"fmt"
 	"go/token"
 	"go/types"
+	"regexp"
 	"sort"
 	"strings"
 
@@ -111,6 +112,19 @@ func normCond(cond string, dec *recTable, spec *specRecord, forSeg bool) string 
 	return strings.Join(out, " && ")
 }
 
+// dropNonEmptyGuard: for a list segment and for the rows of a list's element record, "count != 0" is the
+// "only when non-empty" guard in its other spelling (an empty list contributes no octets either way).
+func dropNonEmptyGuard(cond string) string {
+	var out []string
+	for _, p := range strings.Split(cond, " && ") {
+		if p == "" || strings.HasSuffix(p, " != 0") {
+			continue
+		}
+		out = append(out, p)
+	}
+	return strings.Join(out, " && ")
+}
+
 func negLit(p string) string {
 	switch {
 	case strings.Contains(p, " == "):
@@ -185,7 +199,11 @@ func normalise(t *recTable, dec *recTable, spec *specRecord, lenToSlot map[strin
 	conds := map[k][]string{}
 	for _, r := range t.Bits {
 		kk := k{r.Field, r.FBit, r.W}
-		conds[kk] = append(conds[kk], stripMarkers(normCond(r.Cond, dec, spec, false)))
+		cd := stripMarkers(normCond(r.Cond, dec, spec, false))
+		if strings.HasSuffix(t.Record, "[]") {
+			cd = dropNonEmptyGuard(cd)
+		}
+		conds[kk] = append(conds[kk], cd)
 	}
 	for kk, cs := range conds {
 		for _, c := range mergeConds(cs) {
@@ -206,7 +224,11 @@ func normalise(t *recTable, dec *recTable, spec *specRecord, lenToSlot map[strin
 			hi = "end"
 		}
 		key := sk{s.Field, s.Nested, lo, hi}
-		sconds[key] = append(sconds[key], normCond(s.Cond, dec, spec, true))
+		cd := normCond(s.Cond, dec, spec, true)
+		if strings.HasPrefix(s.Nested, "list<") {
+			cd = dropNonEmptyGuard(cd)
+		}
+		sconds[key] = append(sconds[key], cd)
 		spos[key] = s
 	}
 	for key, cs := range sconds {
@@ -467,6 +489,10 @@ func (c *Ctx) plainCodecRules(r *Report, prefix string) {
 	c.akaPaddingRule(r, prefix)
 	c.elementFreshRule(r, prefix+"decode.element-fresh")
 	c.encodeOwnHeaderRule(r, prefix+"encode-own-header")
+	// encoding is a function of the message's value: nothing is written through message-owned slices (a transform
+	// list grown in place shows up in every other proposal cut from the same backing array)
+	c.encodeNoWriteThroughRule(r, prefix+"encode.no-write-through", c.Reachable(c.encodeRoots(r, prefix)...),
+		map[string]bool{"field:message.IKEHeader.NextPayload": true, "field:message.IKEHeader.PayloadBytes": true})
 }
 
 // unresolvedRule: the extractor understood every store / write of the codec functions.
@@ -592,10 +618,10 @@ func (w *slotWorld) perFunctionRule(r *Report, rule string) {
 			}
 			per := map[string][]string{}
 			for _, b := range t.Bits {
-				per[b.Fn] = append(per[b.Fn], fmt.Sprintf("%s#%d@%d.%d[%s]", b.Field, b.FBit, b.W.Off, b.W.Bit, b.Cond))
+				per[b.Fn] = append(per[b.Fn], anonRoots(fmt.Sprintf("%s#%d@%d.%d[%s]", b.Field, b.FBit, b.W.Off, b.W.Bit, b.Cond)))
 			}
 			for _, sg := range t.Segs {
-				per[sg.Fn] = append(per[sg.Fn], fmt.Sprintf("seg %s %s [%s:%s] [%s]", sg.Field, normNested(sg.Nested), sg.Lo, sg.Hi, sg.Cond))
+				per[sg.Fn] = append(per[sg.Fn], anonRoots(fmt.Sprintf("seg %s %s [%s:%s] [%s]", sg.Field, normNested(sg.Nested), sg.Lo, sg.Hi, sg.Cond)))
 			}
 			var fns []string
 			for fn := range per {
@@ -622,6 +648,11 @@ func (w *slotWorld) perFunctionRule(r *Report, rule string) {
 		}
 	}
 }
+
+var rootNameRe = regexp.MustCompile(`\b(cursor|param):[A-Za-z0-9_]+`)
+
+// anonRoots drops the source names of cursors and parameters from a row: siblings may name their locals differently.
+func anonRoots(s string) string { return rootNameRe.ReplaceAllString(s, "$1") }
 
 func firstDiff(a, b []string, na, nb string) string {
 	in := func(x string, l []string) bool {
